@@ -141,6 +141,15 @@ theorem c15_backoff_zero_min (max k : Nat) :
     accept 0 max (List.replicate k false) = (.waiting, k, 0) :=
   loop_zero_never_gives_up max k
 
+/-- **C15 (only a run of failures ends the listener).** For every sequence of accept(2) outcomes and every configuration:
+    if a call of `Listener::accept` gives up, every accept(2) call it made had failed — one connection in between ends the
+    call successfully, and the next call starts again from `min`. -/
+theorem c15_backoff_gives_up_only_on_failures (min max : Nat) (outs : List Bool)
+    (h : (accept min max outs).1 = .gaveUp) :
+    (accept min max outs).2.1 ≤ outs.length ∧
+      outs.take (accept min max outs).2.1 = List.replicate (accept min max outs).2.1 false :=
+  loop_gaveUp_prefix_fails max outs min h
+
 -- non-vacuity / the two configurations that occur: the harness's server (10 ms, 100 ms) and the defaults of
 -- `net::Config` (500 ms, 64 s)
 example : accept 10 100 (List.replicate 4 false ++ [true]) = (.accepted, 5, 150) := by decide
